@@ -909,11 +909,21 @@ def grad_fanout(prog: dict) -> int:
     """largest number of gradient contributions any tensor receives (differentiable uses of one variable).
     With >= 3 contributions the order in which autograd accumulates them matters in floating point."""
     uses: Dict[str, int] = {}
+    alias: Dict[str, str] = {}  # F.dropout with p = 0 / in eval mode returns its input object itself: same autograd tensor
+
+    def root(v):
+        while v in alias:
+            v = alias[v]
+        return v
 
     def use(v, k=1):
+        v = root(v)
         uses[v] = uses.get(v, 0) + k
     for s in prog["stmts"]:
         op = s["op"]
+        if op == "ew" and s["fn"] in ("dropout0", "dropout_eval"):
+            alias[s["out"]] = s["x"]
+            continue
         if op == "sdpa":
             for v in (s["q"], s["k"], s["v"]):
                 use(v)
